@@ -142,8 +142,6 @@ class RefEd:
         self.kw = None
         self.files = dict(files, f=list(file_lines))
         self.lenient = False
-        self.zero_rejects = 0
-        self.addr0_quirk = False
         self.out = []
         self.wa = True
         self.dirty = False
@@ -264,14 +262,8 @@ class RefEd:
                 raise Reject()
             b, e, zero = self.resolve(c.get('addr', []))
             adds = k in ('a', 'i', 'c', 'pu', 'r')
-            if zero and (not adds or (n == 0 and k in ('pu', 'r'))):
-                self.zero_rejects += 1
-                if not self.addr0_quirk:
-                    if not adds:
-                        raise Reject()      # address 0 only for the commands that add text
-                elif n == 0:
-                    raise Reject()          # KF-ADDR0: ex_region refuses address 0 on the empty buffer (only a/i/c get through)
-                # KF-ADDR0 otherwise: d y p = k ! @ take address 0 as the empty range before line 1
+            if zero and not adds:
+                raise Reject()              # address 0 only for the commands that add text
             if k in ('d', 'y') and n == 0:
                 raise Reject()
             if k == 'a':
@@ -525,12 +517,11 @@ def ref_regions(ed, cmds_list):
     return groups
 
 
-def oracle(case, obs, quirk=False):
+def oracle(case, obs):
     """-> None or dict(what, step, expected, observed).  Marks whose line was inside a replaced range
     are unspecified by the property: the reference adopts what the implementation reports for them."""
     ed = RefEd(case['file'], case['files'])
     ed.wa = case.get('wa', True)
-    ed.addr0_quirk = quirk
     for k, step in enumerate(case['steps']):
         if k >= len(obs):
             return {'what': 'the editor printed the probes of only %d of %d steps' % (len(obs), len(case['steps'])), 'step': k}
@@ -568,9 +559,8 @@ def oracle(case, obs, quirk=False):
 
 
 def classify(case, bad):
-    """KF-ADDR0: the observation is explained exactly by the reference in which d, y, p, k, ! and @ take
-    address 0 as the empty range before line 1 (what ex_region hands them) instead of rejecting it."""
-    return bad.get('kf')
+    """no finding of C06 is listed as known: the address-0 defects found by this check were repaired (fixed: 6c95ca8)"""
+    return None
 
 
 # ---------------------------------------------------------------------------------------------
@@ -616,8 +606,6 @@ def check_case(vi, case, mans):
     res = ('ok', None)
     if bad is not None:
         res = ('undefined', bad) if bad.get('undefined') else ('violation', bad)
-        if res[0] == 'violation' and 'step' in bad and oracle(case, obs, quirk=True) is None:
-            bad['kf'] = 'KF-ADDR0'
     if mans is not None and res[0] in ('ok', 'undefined'):
         d, ms = model_stream(mans)
         if int(d.get('F', '0')) & 3:
@@ -769,8 +757,6 @@ def run(ctx):
             k2, d2 = check_case(vi, small, None)
             if k2 == kind:
                 case, det = small, d2
-        if kf:
-            det = dict(det, what='address 0 is taken as the empty range before line 1 by a command that adds no text (d y p k ! @ =), or 0r/0pu is refused on the empty buffer; first seen as: ' + det.get('what', ''))
         res.violation(dict(det, input=case_input(case)), kf=kf)
     for c in cases[:200:41]:
         res.sample({'script': build_script(c).decode('latin-1')[:600]})
